@@ -93,3 +93,22 @@ def follower_stream(rnd, pre=60000, post=700000):
     if v != 'VALID':
         raise core.HarnessError('follower stream not valid: ' + info['reason'])
     return data, out
+
+
+def concat_levels(rnd, lb=None):
+    """Concatenated streams with different levels where a LATER stream has blocks larger than the
+    first stream's level allows (e.g. BZh1 then BZh9 with a 300 KB block).  -> (name, data, plain)"""
+    parts = []
+    plain = b''
+    first = rnd.choice([1, 1, 2, 3])
+    levels = [first] + [rnd.randint(first + 1, 9) for _ in range(rnd.randint(1, 3))]
+    for i, lv in enumerate(levels):
+        size = rnd.choice([0, 10, 5000]) if i == 0 and rnd.random() < 0.7 else rnd.choice([first * 100000 + 50000, lv * 100000 - 7, lv * 100000 + 3000])
+        d = gen.make(rnd, rnd.choice(['uniform', 'text', 'k4']), size, 1)
+        if lb is not None and rnd.random() < 0.5:
+            c = core.run([lb, '-%d' % lv, '-n', '2'], stdin=d, timeout=120).out
+        else:
+            c = bz2.compress(d, lv)
+        parts.append(c)
+        plain += d
+    return 'concat-levels-' + ''.join(str(l) for l in levels), b''.join(parts), plain
